@@ -10,6 +10,12 @@ CHECKS = {
          "Trusts the harness entity and the strict Content-Range / multipart parsers of the harness.", "property-based testing (proptest) + bounded-exhaustive enumeration, round-trip oracle against position-hashed content", "6/C02"),
  "C03": ("exploration", "Differential test of Range resolution against an independent u128 reference resolver that returns the set of outcomes the statement permits; exhaustive for L<=8 with positions 0..=L+2 and for the boundary-value product, proptest for threshold sets and near-miss/garbage headers.",
          "Lenient-but-RFC-grammatical header forms are accepted either way (listed in evidence as tolerated). L=0 is outside the statement.", "differential testing vs. reference model: bounded-exhaustive enumeration + proptest", "6/C03"),
+ "C04": ("exploration", "Differential test against an independent evaluator of the statement (own tag-list splitter, strong/weak comparison, date comparison on the Last-Modified second); the categorical product of the quantifier is enumerated completely on representative lists, every list of 1-3 tags is crossed with all date combinations, proptest samples the rest; 'processing continues' is checked metamorphically against the unconditional request.",
+         "Premise: well-formed validators, modification times not in the future. HTTP-dates parsed with the httpdate crate.", "differential testing vs. reference model: exhaustive categorical product + proptest", "6/C04"),
+ "C05": ("exploration", "Metamorphic triples (request / without If-Range / without If-Range and Range) over an enumerated product of If-Range variants (identical, W/-toggled, prefix/suffix/case variants, dates before/equal/after in three formats, garbage) x Range shapes x GET/HEAD, plus proptest.",
+         "Entity headers are not compared here (C06/C14).", "metamorphic property-based testing: enumerated product + proptest", "6/C05"),
+ "C14": ("exploration", "Two-request histories: header invariants on the first response and the cache-friendly answer to a second request echoing each of the 32 subsets of served validators; enumerated over ETag kinds x 9 modification times (epoch, sub-second, future) x header sets x 6 first-request shapes, plus proptest.",
+         "For future modification times the round trip is demanded only when the served Date did not move between the two requests (re-run up to 3 times).", "stateful (history) property-based testing: enumerated histories + proptest", "6/C14"),
  "C06": ("exploration", "Generated multi-range requests (2-8 ranges, overlapping/adjacent/duplicate/out-of-order, entity lengths up to 2^64-1, entity headers, If-Range) checked with a strict length-driven multipart parser, the reference resolver and position-hashed content; huge last parts checked on a prefix plus arithmetic.",
          "Trusts the harness multipart parser (written from RFC 2046/7233).", "property-based testing (proptest) with strict parser oracle", "6/C06"),
  "C07": ("fault_enumeration", "Every fault (early end, error, extra byte, extra chunk) at every chunk position of every composition of ranges of length 1..8 into <=4 chunks, for 200, single 206 and each part of 2-3 part multipart responses, with Pending/empty fillers; plus random longer cases. Compared with the fault-free twin.",
